@@ -118,6 +118,7 @@ def reset_initial_conditions(
     InitCond.ccx_w_ns = 0
     InitCond.ccx_early_sen = 0
     InitCond.cc_prev = 0
+    InitCond.cc0_adj = crop.CC0
     InitCond.protected_seed = 0
     InitCond.sumET0EarlySen = 0
     InitCond.HIfinal = crop.HI0
